@@ -244,7 +244,7 @@ def check(pid, tier):
 
         def run_job(job):
             ui, u, s, t = job
-            rd = os.path.join(work, "run", "%s-%d" % (u["test"], s))
+            rd = os.path.join(work, "run", "%s-u%d-%d" % (u["test"], ui, s))
             os.makedirs(os.path.join(rd, "fail"), exist_ok=True)
             seed = seed_for(base_seed, ui, s)
             binp = bins[u["pkg"] + ("+asan" if u.get("asan") else "+fuzz" if u.get("kind") == "fuzz" else "")]
